@@ -77,7 +77,11 @@ theorem query_cache_irrelevant (c : Cache) (enc : Bool) (s : Store) (q : Query) 
 
 /-- **Histories.**  Several clients, each command run with whatever its cache directory holds at that moment — given as an
 arbitrary sequence of caches (disabled, empty, warm, shared between keys/repositories, separate, stale, torn by an interrupted
-write): the repository evolves exactly as without any cache, under the ideal-hash reading `B` of digests. -/
+write): the repository evolves exactly as without any cache, under the ideal-hash reading `B` of digests.
+The client of the model carries NOTHING from one command to the next (`runC` folds `stepC`; the only things a command sees are
+the store and the cache of the moment).  That this is also true of a long-lived `Repository` object is what the harness ties:
+half of its histories keep one object per (user, cache directory) on one event loop while other clients damage / replace the
+entries that object validated or stored in its earlier commands, and compare every command with this stateless model. -/
 theorem history_cache_irrelevant (B : Fam → Nat → Body) (enc : Bool) (h : List (Option Cache × Op)) (s : Store)
     (hs : WF s) (hB : Ideal B s) (hc : ∀ x ∈ h, ∀ c, x.1 = some c → Ideal B c) (hops : ∀ x ∈ h, OpIdeal B x.2) :
     runC enc s h = run enc s (h.map (·.2)) := by
